@@ -54,7 +54,7 @@ BOUND = {
              "length 0..3 over the full calendar alphabet (NaT + 8 dates for D; NaT + 8 dates x 2 times of day, plus 2 midnight-plus-fraction "
              "values for ms and us: 17-19 values); replace: all vectors of length 0..3 over a 6-value sub-alphabet x all subsets of <= 2 "
              "components x 2-3 values per component x scalar / vector / mixed arguments; regex: all string vectors of length 0..3 over 6 strings "
-             "x 8 patterns x flags {0, I} x 7 functions x count/maxsplit {0,1} x 4 replacements; .str: every proxy attribute x 1-2 argument tuples",
+             "x 8 patterns (+ 5 more over a 4-string alphabet with NULs: a literal NUL, an end anchor, and three patterns whose first match is a proper prefix so that fullmatch must backtrack) x flags {0, I} x 7 functions x count/maxsplit {0,1} x 4 replacements; .str: every proxy attribute x 1-2 argument tuples",
     "thorough": "as quick, with replace over the full calendar alphabet as well, plus extract / to_string / round trip at length 4 over a "
                 "10-11 value sub-alphabet; regex vectors of length 0..4, compiled patterns, and length 0..3 over 8 strings (multi-line, "
                 "upper case) x flags {0, I, M, I|M}; .str over the 8 strings",
@@ -247,7 +247,8 @@ def shards(tier):
     for pattern in PATTERNS:
         for flags in (0, int(re.I)):
             small.append({"part": "re", "alpha": "base", "pattern": pattern, "flags": flags, "n": 3, "first": None})
-    for pattern in PATTERNS + [r"\x00", r"b$"]:
+    # "a|ab", "(a+?)(b?)", "a*?": the first success of match() covers a proper prefix only - fullmatch has to backtrack (seeded C19-r12-1)
+    for pattern in PATTERNS + [r"\x00", r"b$", "a|ab", "(a+?)(b?)", "a*?"]:
         small.append({"part": "re", "alpha": "nul", "pattern": pattern, "flags": 0, "n": 3, "first": None})
     small.append({"part": "str", "alpha": "base", "n": 2, "first": None})
     for first in range(len(STRINGS)):
